@@ -891,11 +891,14 @@ class G:
         val = None if ret is None else self.expr(ret, sc, 1, True)
         # the other branch: absent, a statement, or a return of its own (one-line and block form; the if is never the last
         # statement of the function because more statements or the tail follow)
-        k = self.pick(["none", "none", "print", "ret"]) if ret is not None else self.pick(["none", "none", "print"])
+        k = self.pick(["none", "none", "print", "ret", "value"]) if ret is not None else self.pick(["none", "none", "print"])
         if k == "none":
             el = None
         elif k == "print":
             el = [("print", self.expr(self.printable(sc), sc, 1, True))]
+        elif k == "value":
+            # a value whose result is discarded (an expression statement) of the function's return type
+            el = [("expr", self.atom(ret, sc) if ret in PRIMS else self.expr(ret, sc, 0, True))]
         else:
             el = [("ret", self.expr(ret, sc, 1, True))]
         if el is not None and self.chance(30):
